@@ -2,7 +2,7 @@
 # usage: benign_lab.sh <out.tsv> <dir-with-patch.diff> ...  — applies each semantics-preserving patch to a scratch worktree and runs
 # EVERY check's quick tier in a scratch copy of /verif: any VIOLATION is a false alarm of the machinery (or the patch is not benign).
 OUT=$1; shift
-LAB=/tmp/mutverif; WT=/tmp/wt/mut
+LAB=${LAB:-/tmp/mutverif}; WT=${WT:-/tmp/wt/mut}
 mkdir -p $LAB
 rsync -a --delete --exclude .cache --exclude work --exclude .git --exclude evidence /verif/ $LAB/
 sed -i "s#/repo/guard#$WT/guard#" $LAB/harness/Cargo.toml
